@@ -731,11 +731,11 @@ structure HeaderOK (m : MDL) : Prop where
     m.modelData.header.shapeMeshCount = m.modelData.shapeMeshes.length.toUInt16 ∧
     m.modelData.header.shapeValueCount = m.modelData.shapeValues.length.toUInt16
   /-- every used LOD has a row -/
-  usedLe : m.fileHeader.lodCount.toNat ≤ m.modelData.lods.length
+  usedLe : m.lods.length ≤ m.modelData.lods.length
   /-- (d) stream offsets of the meshes of the used LODs, when the mesh ranges of the used LODs do
   not overlap (otherwise the offsets of a shared mesh are those of the last LOD that owns it) -/
-  streams : RangesDisjoint m.modelData.lods m.fileHeader.lodCount.toNat →
-    ∀ i, i < m.fileHeader.lodCount.toNat → StreamsOK m.modelData.meshes (lodAt m.modelData.lods i)
+  streams : RangesDisjoint m.modelData.lods m.lods.length →
+    ∀ i, i < m.lods.length → StreamsOK m.modelData.meshes (lodAt m.modelData.lods i)
 
 /-- what `updateHeaders` leaves alone -/
 structure Frame (m m' : MDL) : Prop where
@@ -801,7 +801,7 @@ theorem updateHeaders_core {m m' : MDL} (h : updateHeaders m = .ok m') : HeaderO
     · rw [← List.getElem?_map]; exact gio i hi
     · rw [← List.getElem?_map]; exact gvbs i hi
     · rw [← List.getElem?_map]; exact gibs i hi
-  · show m.fileHeader.lodCount.toNat ≤ lods2.length
+  · show m.lods.length ≤ lods2.length
     rw [hlen]
     apply Classical.byContradiction
     intro hc
@@ -809,7 +809,7 @@ theorem updateHeaders_core {m m' : MDL} (h : updateHeaders m = .ok m') : HeaderO
     omega
   · intro hd i hi
     show StreamsUpTo meshes meshes (lodAt lods2 i).meshIndex.toNat (lodAt lods2 i).meshCount.toNat
-    have hd0 : RangesDisjoint m.modelData.lods m.fileHeader.lodCount.toNat := hd.of_ranges hranges
+    have hd0 : RangesDisjoint m.modelData.lods m.lods.length := hd.of_ranges hranges
     rw [(hranges i).1, (hranges i).2]
     exact (s3 hd0 i hi).ofShape s1
   · exact hlen
@@ -1070,8 +1070,8 @@ theorem lodAt_mem {lods : List MeshLod} {i : Nat} (h : i < lods.length) : lodAt 
 /-- (d) for a used LOD of a consistent model: every stream range lies inside
 `[0, vertex_buffer_size)` of its LOD row -/
 theorem HeaderOK.stream_in_section {m : MDL} (h : HeaderOK m)
-    (hd : RangesDisjoint m.modelData.lods m.fileHeader.lodCount.toNat)
-    {i : Nat} (hi : i < m.fileHeader.lodCount.toNat) {d s : Nat}
+    (hd : RangesDisjoint m.modelData.lods m.lods.length)
+    {i : Nat} (hi : i < m.lods.length) {d s : Nat}
     (hdc : d < (lodAt m.modelData.lods i).meshCount.toNat)
     (hs : s < (meshAt m.modelData.meshes
       ((lodAt m.modelData.lods i).meshIndex.toNat + d)).vertexStreamCount.toNat) :
@@ -1091,9 +1091,9 @@ theorem Frame.lodAt_ranges {m m' : MDL} (hf : Frame m m') (i : Nat) :
   Physis.Mdl.lodAt_ranges hf.lodsLen hf.ranges i
 
 theorem Frame.rangesDisjoint {m m' : MDL} (hf : Frame m m')
-    (hd : RangesDisjoint m.modelData.lods m.fileHeader.lodCount.toNat) :
-    RangesDisjoint m'.modelData.lods m'.fileHeader.lodCount.toNat := by
-  rw [hf.lodCount]
+    (hd : RangesDisjoint m.modelData.lods m.lods.length) :
+    RangesDisjoint m'.modelData.lods m'.lods.length := by
+  rw [hf.partsLen]
   exact hd.to_ranges hf.lodAt_ranges
 
 /-- the invariant of an edit session: consistent headers, three LOD rows, disjoint mesh ranges of
@@ -1101,7 +1101,7 @@ the used LODs -/
 structure Inv (m : MDL) : Prop where
   ok : HeaderOK m
   three : m.modelData.lods.length = 3
-  disjoint : RangesDisjoint m.modelData.lods m.fileHeader.lodCount.toNat
+  disjoint : RangesDisjoint m.modelData.lods m.lods.length
 
 theorem history_inv (es : List Edit) (m m' : MDL) (h0 : Inv m)
     (h : es.foldlM applyEdit m = .ok m') : Inv m' := by
@@ -1110,7 +1110,7 @@ theorem history_inv (es : List Edit) (m m' : MDL) (h0 : Inv m)
 
 /-- (d) after any history of edits of a model whose used LODs own disjoint mesh ranges -/
 theorem history_streams (es : List Edit) (m m' : MDL) (h0 : Inv m)
-    (h : es.foldlM applyEdit m = .ok m') (i : Nat) (hi : i < m'.fileHeader.lodCount.toNat) :
+    (h : es.foldlM applyEdit m = .ok m') (i : Nat) (hi : i < m'.lods.length) :
     StreamsOK m'.modelData.meshes (lodAt m'.modelData.lods i) :=
   let h' := history_inv es m m' h0 h
   h'.ok.streams h'.disjoint i hi
@@ -1160,9 +1160,9 @@ instance (m : MDL) : Decidable (HeaderOK m) :=
      (m.modelData.header.shapeCount = m.modelData.shapes.length.toUInt16 ∧
         m.modelData.header.shapeMeshCount = m.modelData.shapeMeshes.length.toUInt16 ∧
         m.modelData.header.shapeValueCount = m.modelData.shapeValues.length.toUInt16) ∧
-     (m.fileHeader.lodCount.toNat ≤ m.modelData.lods.length) ∧
-     (RangesDisjoint m.modelData.lods m.fileHeader.lodCount.toNat →
-        ∀ i, i < m.fileHeader.lodCount.toNat → StreamsOK m.modelData.meshes (lodAt m.modelData.lods i)))
+     (m.lods.length ≤ m.modelData.lods.length) ∧
+     (RangesDisjoint m.modelData.lods m.lods.length →
+        ∀ i, i < m.lods.length → StreamsOK m.modelData.meshes (lodAt m.modelData.lods i)))
     ⟨fun ⟨a, b, c, d, e, f, g, h, i⟩ => ⟨a, b, c, d, e, f, g, h, i⟩,
      fun h => ⟨h.1, h.2, h.3, h.4, h.5, h.6, h.7, h.8, h.9⟩⟩
 
@@ -1258,13 +1258,14 @@ theorem index_padding_wrap_witness :
 def exOverlap : MDL :=
   { exMdl with
     fileHeader := { exMdl.fileHeader with lodCount := 2 },
-    modelData := { exMdl.modelData with lods := [exLod 0 2, exLod 1 1, exLod 2 0] } }
+    modelData := { exMdl.modelData with lods := [exLod 0 2, exLod 1 1, exLod 2 0] },
+    lods := [[exPart 0 0 6 0, exPart 1 1 3 6], [exPart 1 1 3 6]] }
 
 def exOverlapOut : MDL :=
   { exOverlap with
     fileHeader := { exOverlap.fileHeader with
-      stackSize := 272, runtimeSize := 449, vertexOffsets := ⟨789, 0, 0⟩, indexOffsets := ⟨929, 0, 0⟩,
-      vertexBufferSize := ⟨140, 0, 0⟩, indexBufferSize := ⟨32, 0, 0⟩ },
+      stackSize := 272, runtimeSize := 449, vertexOffsets := ⟨789, 961, 0⟩, indexOffsets := ⟨929, 1021, 0⟩,
+      vertexBufferSize := ⟨140, 60, 0⟩, indexBufferSize := ⟨32, 32, 0⟩ },
     modelData := { exOverlap.modelData with
       lods := [exLodOut 0 2 789 140 929 32, exLodOut 1 1 961 60 1021 32, exLodOut 2 0 1053 0 1053 16],
       meshes := [{ exMesh 4 6 0 12 8 with vertexBufferOffsets := ⟨0, 48, 0⟩ },
@@ -1276,7 +1277,7 @@ the offsets 0 / 48 of LOD 1, which inside LOD 0 are the bytes of mesh 0.  Everyt
 `HeaderOK` still holds. -/
 theorem streams_overlap_witness :
     updateHeaders exOverlap = .ok exOverlapOut ∧ HeaderOK exOverlapOut ∧
-    ¬ RangesDisjoint exOverlapOut.modelData.lods exOverlapOut.fileHeader.lodCount.toNat ∧
+    ¬ RangesDisjoint exOverlapOut.modelData.lods exOverlapOut.lods.length ∧
     ¬ StreamsOK exOverlapOut.modelData.meshes (lodAt exOverlapOut.modelData.lods 0) ∧
     StreamsOK exOverlapOut.modelData.meshes (lodAt exOverlapOut.modelData.lods 1) :=
   ⟨by rfl, by decide +kernel, by decide +kernel, by decide +kernel, by decide +kernel⟩
